@@ -12,8 +12,24 @@ from gen import hellinger as gen
 
 
 def impl(p, q, n):
+    """p, q are handed over AS THEY ARE (lists, float or integer arrays): the caller keeps using the same objects"""
     from quantum_gates._utility.simulations_utility import compute_Hellinger_distance
-    return float(compute_Hellinger_distance(np.array(p, dtype=float), np.array(q, dtype=float), n))
+    return float(compute_Hellinger_distance(p, q, n))
+
+
+def as_given(rng, v):
+    """the container a caller may hold a probability vector in: float64 array (mostly), list, or - for vectors with
+    integer entries such as point masses - an integer array"""
+    r = rng.random()
+    if all(float(x).is_integer() for x in v) and r < 0.5:
+        return np.array([int(x) for x in v])
+    if r < 0.15:
+        return list(v)
+    return np.array(v, dtype=float)
+
+
+def snapshot(x):
+    return x.tobytes() if isinstance(x, np.ndarray) else repr(x)
 
 
 def rand_dist(rng, n, kind):
@@ -49,6 +65,17 @@ def cases(ctx):
         q = [max(0.0, x + eps * (rng.random() - 0.5)) for x in p]; s = math.fsum(q); q = [x / s for x in q]
         out.append((n, p, q, "near-identical"))
         out.append((n, p, list(p), "identical"))
+        # distinct vectors inside numpy's default closeness tolerance: a ~1e-8 entry on different outcomes (H^2 ~ 1e-8)
+        if n >= 2:
+            N = 2 ** n
+            base = rand_dist(rng, n, "sparse")
+            zeros = [i for i in range(N) if base[i] == 0.0]
+            if len(zeros) >= 2:
+                i, j = rng.sample(zeros, 2)
+                t = rng.choice([1e-8, 5e-9, 2e-8])
+                p2 = list(base); p2[i] = t; s2 = math.fsum(p2); p2 = [x / s2 for x in p2]
+                q2 = list(base); q2[j] = t; s2 = math.fsum(q2); q2 = [x / s2 for x in q2]
+                out.append((n, p2, q2, "near-identical-sparse"))
         # disjoint supports
         N = 2 ** n
         a = [rng.random() + 0.01 if i % 2 == 0 else 0.0 for i in range(N)]
@@ -58,13 +85,36 @@ def cases(ctx):
     return out
 
 
-def oracle(n, p, q, r, kind):
-    """C17 evaluated on the real function; returns None or a failure text"""
+def oracle(n, p, q, r, kind, rng=None):
+    """C17 evaluated on the real function; returns None or a failure text.  The vectors are materialised ONCE in the
+    container a caller would hold them in and the same objects are used for every call of the case (H(p,q), H(q,p), the
+    triangle), and must come back unchanged."""
+    import random
+    rng = rng or random.Random(len(p) * 7919 + int(1e6 * p[0]))
+    pl, ql, rl = p, q, r
+    p, q = as_given(rng, pl), as_given(rng, ql)
+    r = as_given(rng, rl) if rl is not None else None
+    keep = [snapshot(x) for x in (p, q, r) if x is not None]
+    bad = _oracle(n, p, q, r, kind, pl, ql)
+    if bad:
+        return bad
+    if [snapshot(x) for x in (p, q, r) if x is not None] != keep:
+        return "an input vector was modified by the call"
+    if impl(p, p, n) != 0.0:
+        return f"H(p,p) on one and the same object is {impl(p, p, n)!r}, not 0"
+    h2 = impl(p, q, n)                              # once more on the same objects
+    bc = math.fsum(math.sqrt(a * b) for a, b in zip(pl, ql))
+    if not abs(h2 * h2 - (1.0 - bc)) <= 1e-12:
+        return f"a repeated call on the same objects gives H^2={h2*h2!r}, 1-sum sqrt(p q)={1.0-bc!r}"
+    return None
+
+
+def _oracle(n, p, q, r, kind, pl, ql):
     try:
         h = impl(p, q, n)
     except Exception as e:                        # noqa
         return f"raised {type(e).__name__}: {e}"
-    bc = math.fsum(math.sqrt(a * b) for a, b in zip(p, q))
+    bc = math.fsum(math.sqrt(a * b) for a, b in zip(pl, ql))
     if not abs(h * h - (1.0 - bc)) <= 1e-12:
         return f"H^2={h*h!r} differs from 1-sum sqrt(p q)={1.0-bc!r}"
     if not (-1e-15 <= h <= 1.0 + 1e-12):
@@ -75,7 +125,7 @@ def oracle(n, p, q, r, kind):
         return f"H(p,p)={h!r} is not 0"
     if kind == "disjoint" and abs(h - 1.0) > 1e-12:
         return f"disjoint supports give H={h!r}, not 1"
-    if kind not in ("identical", "near-identical") and p != q and max(abs(a - b) for a, b in zip(p, q)) > 1e-6 and h <= 0.0:
+    if kind not in ("identical", "near-identical") and pl != ql and max(abs(a - b) for a, b in zip(pl, ql)) > 1e-6 and h <= 0.0:
         return "distinct vectors at distance 0"
     if kind != "disjoint" and bc > 1e-9 and h >= 1.0:
         return "overlapping supports at distance 1"
@@ -101,7 +151,7 @@ def main(ctx):
         r = cs[(idx + 1) % len(cs)][1] if cs[(idx + 1) % len(cs)][0] == n else None
         bad = oracle(n, p, q, r, kind)
         if bad:
-            fails.append((n, p, q, kind, bad))
+            fails.append((n, p, q, kind, bad, r))
         if kind != "identical":
             nontrivial.add(core.sha([n, p, q]))
         if ir is not None:
@@ -125,8 +175,8 @@ def main(ctx):
                             "numpy sqrt / element-wise arithmetic denote the real operations (rounding is outside the theorems)"]
     ctx.assumptions += ["vectors are probability vectors (non-negative, sum 1) of length 2^n", "exact real arithmetic; numeric "
                         "oracle tolerances 1e-12 (on H^2) / 1e-15 (symmetry)"]
-    for n, p, q, kind, bad in fails[:3]:
-        ctx.violation({"kind": "oracle", "case": kind}, {"n": n, "p": p, "q": q, "failure": bad},
+    for n, p, q, kind, bad, r in fails[:3]:
+        ctx.violation({"kind": "oracle", "case": kind}, {"n": n, "p": p, "q": q, "r": r, "case": kind, "failure": bad},
                       f"compute_Hellinger_distance on a {kind} pair (n={n}): {bad}")
     if not fails:
         broken = tie_broken or (None if lean.ok else f"Lean obligations fail: {lean.failed}") or \
@@ -140,6 +190,6 @@ def replay(ctx, path):
     rp = json.load(open(path))["replay"]
     if "p" not in rp:
         print("replay names a broken obligation:", json.dumps(rp)[:400]); return 1
-    bad = oracle(rp["n"], rp["p"], rp["q"], None, "replay")
-    print("H_impl =", impl(rp["p"], rp["q"], rp["n"]), "| oracle:", bad or "holds")
+    bad = oracle(rp["n"], rp["p"], rp["q"], rp.get("r"), rp.get("case", "replay"))
+    print("H_impl =", impl(np.array(rp["p"]), np.array(rp["q"]), rp["n"]), "| oracle:", bad or "holds")
     return 1 if bad else 0
